@@ -10,5 +10,14 @@ pub broadcast axiom fn eq_refl_literals() ensures (1.0f64).eq_spec(&1.0f64), (0.
 pub broadcast axiom fn gt_irrefl(x: f64) ensures !#[trigger] f_gt(x, x);
 /// !(x > m) and i > m  imply  !(x > i)   (the running maximum of a pivot search stays maximal)   kani: ngt_trans
 pub broadcast axiom fn ngt_trans(x: f64, m: f64, i: f64) requires !f_gt(x, m), f_gt(i, m) ensures !#[trigger] f_gt(x, i), #[trigger] f_gt(i, m);
-pub broadcast group ieee_axioms { finite_self_diff, eq_refl_literals, gt_irrefl, ngt_trans }
+/// NaN propagates through + * / and sqrt                                                kani: nan_add nan_mul nan_div nan_sqrt
+pub broadcast axiom fn nan_add(a: f64, b: f64) ensures s_is_nan(a) || s_is_nan(b) ==> s_is_nan(#[trigger] a.add_spec(b));
+pub broadcast axiom fn nan_mul(a: f64, b: f64) ensures s_is_nan(a) || s_is_nan(b) ==> s_is_nan(#[trigger] a.mul_spec(b));
+pub broadcast axiom fn nan_div(a: f64, b: f64) ensures s_is_nan(a) || s_is_nan(b) ==> s_is_nan(#[trigger] a.div_spec(b));
+pub broadcast axiom fn nan_sqrt(a: f64) ensures s_is_nan(a) ==> s_is_nan(#[trigger] s_sqrt(a));
+/// a NaN is not <= anything; +infinity is not <= 1.0                                     kani: nan_not_le inf_not_le_one
+pub broadcast axiom fn nan_not_le(a: f64, b: f64) ensures s_is_nan(a) ==> !#[trigger] f_le(a, b);
+#[verifier::allow(broadcast_without_trigger)]
+pub broadcast axiom fn inf_not_le_one() ensures !f_le(INFINITY_s(), 1.0f64);
+pub broadcast group ieee_axioms { finite_self_diff, eq_refl_literals, gt_irrefl, ngt_trans, nan_add, nan_mul, nan_div, nan_sqrt, nan_not_le, inf_not_le_one }
 }
